@@ -186,7 +186,7 @@ def main(argv):
         canary = int(argv[3]) if len(argv) > 3 else None
         lines, infos = assemble.assemble(os.path.join(VERIF, u["template"]), canary=canary)
         os.makedirs(unitmod.GEN, exist_ok=True)
-        path = os.path.join(unitmod.GEN, argv[2] + ".dbg.rs")
+        path = os.path.join(unitmod.GEN, argv[2] + "_dbg.rs")
         open(path, "w").write("\n".join(l.text for l in lines) + "\n")
         print(path)
         return 0
